@@ -158,3 +158,73 @@ func OpenScorch(indexDir string, kv map[string]interface{}) (bleve.Index, error)
 	}
 	return bleve.NewUsing(indexDir, bleve.NewIndexMapping(), scorch.Name, scorch.Name, cfg)
 }
+
+// WithMarker makes every batch also write the marker document "m" (version =
+// batch number), so that one search identifies the prefix it observed.
+func (w Workload) WithMarker() Workload {
+	out := w
+	out.Batches = nil
+	for _, b := range w.Batches {
+		nb := b
+		nb.Puts = append(append([]string{}, b.Puts...), "m")
+		out.Batches = append(out.Batches, nb)
+	}
+	return out
+}
+
+// SearchContent returns the whole content of the index through ONE search
+// (match_all with the stored version field): [[id, ver]].
+func SearchContent(idx bleve.Index) ([][]any, error) {
+	req := bleve.NewSearchRequestOptions(bleve.NewMatchAllQuery(), 1000, 0, false)
+	req.Fields = []string{"v"}
+	res, err := idx.Search(req)
+	if err != nil {
+		return nil, err
+	}
+	out := [][]any{}
+	for _, h := range res.Hits {
+		ver := -1
+		if s, ok := h.Fields["v"].(string); ok {
+			ver, _ = strconv.Atoi(strings.TrimPrefix(s, "v"))
+		}
+		out = append(out, []any{h.ID, ver})
+	}
+	if int(res.Total) != len(res.Hits) {
+		return nil, fmt.Errorf("match_all Total=%d hits=%d", res.Total, len(res.Hits))
+	}
+	sort.Slice(out, func(i, j int) bool { return out[i][0].(string) < out[j][0].(string) })
+	return out, nil
+}
+
+// ReaderContent reads everything through one low-level reader.
+func ReaderContent(rd index.IndexReader) (docs [][]any, count int, seq int, err error) {
+	n, err := rd.DocCount()
+	if err != nil {
+		return nil, 0, 0, err
+	}
+	docs = [][]any{}
+	for _, id := range append(append([]string{}, idSpace...), "m") {
+		d, err := rd.Document(id)
+		if err != nil {
+			return nil, 0, 0, err
+		}
+		if d == nil {
+			continue
+		}
+		ver := -1
+		d.VisitFields(func(f index.Field) {
+			if f.Name() == "v" {
+				ver, _ = strconv.Atoi(strings.TrimPrefix(string(f.Value()), "v"))
+			}
+		})
+		docs = append(docs, []any{id, ver})
+	}
+	v, err := rd.GetInternal([]byte("seq"))
+	if err != nil {
+		return nil, 0, 0, err
+	}
+	if v != nil {
+		seq, _ = strconv.Atoi(strings.TrimPrefix(string(v), "i"))
+	}
+	return docs, int(n), seq, nil
+}
